@@ -188,10 +188,13 @@ func (h *httproto) packRequest(m erpc.Message, header http.Header, bb *utils.Byt
 	header.Set("User-Agent", "erpc-httproto/1.1")
 	bb.Write(methodBytes)
 	bb.WriteByte(' ')
+	// the escaped form of the path url.Parse assigned: the receiver splits the request line at
+	// blanks and parses the target as a URI again, so a path that holds a blank, a non-ASCII byte
+	// or (through an escape in the service method) '?', '#', '%' or a control byte must not go out raw
 	if u.RawQuery == "" {
-		bb.WriteString(u.Path)
+		bb.WriteString(u.EscapedPath())
 	} else {
-		bb.WriteString(u.Path + "?" + u.RawQuery)
+		bb.WriteString(u.EscapedPath() + "?" + u.RawQuery)
 	}
 	bb.WriteByte(' ')
 	bb.Write(versionBytes)
